@@ -167,7 +167,8 @@ func ruleP18Format(p *Prog, r *Report) {
 	if !r.anchorFn(rule, format, "Styler.Format") || !r.anchorFn(rule, far, "Styler.FormatAndRestore") || !r.anchorFn(rule, seqs, "Styler.seqs") {
 		return
 	}
-	describe := func(f *ssa.Function, v ssa.Value) []string {
+	var describe func(f *ssa.Function, v ssa.Value) []string
+	describe = func(f *ssa.Function, v ssa.Value) []string {
 		var leaves []ssa.Value
 		concatLeaves(v, &leaves, 0)
 		var out []string
@@ -176,6 +177,16 @@ func ruleP18Format(p *Prog, r *Report) {
 				if s != "" {
 					out = append(out, fmt.Sprintf("const(%q)", s))
 				}
+				continue
+			}
+			// a transparent helper that assembles a part: the union of what its returns contain
+			if hc, _ := l.(*ssa.Call); hc != nil && isHelper(rawStaticCallee(hc)) {
+				h := originFn(rawStaticCallee(hc))
+				vcall{call: hc, chain: []ssa.CallInstruction{hc}}.run(func() {
+					for _, hr := range returnsOf(h) {
+						out = append(out, describe(h, retResult(hr, 0))...)
+					}
+				})
 				continue
 			}
 			if prm, ok := strip(l).(*ssa.Parameter); ok {
